@@ -16,6 +16,7 @@ package taint
 
 import (
 	"errors"
+	"regexp"
 	"runtime"
 	"strings"
 	"time"
@@ -221,9 +222,9 @@ func interfaceMethodIdent(interfaceMethodName string) config.CodeIdentifier {
 		//      ^^^^^^^^^^^^^^^^^^^^^^^ ^^^^^^^^^^^^ ^^^^^^
 		//      package                 receiver     method
 		return config.NewCodeIdentifier(config.CodeIdentifier{
-			Package:  strings.Join(split[0:len(split)-2], "."),
+			Package:  "^" + regexp.QuoteMeta(strings.Join(split[0:len(split)-2], ".")) + "$",
 			Receiver: split[len(split)-2],
-			Method:   split[len(split)-1],
+			Method:   "^" + regexp.QuoteMeta(split[len(split)-1]) + "$",
 		})
 	}
 
@@ -238,9 +239,9 @@ func interfaceImplMethodIdent(impl *ssa.Function) config.CodeIdentifier {
 		receiver := impl.Params[0]
 		recvStr := analysisutil.ReceiverStr(receiver.Type())
 		return config.NewCodeIdentifier(config.CodeIdentifier{
-			Package:  lang.PackageNameFromFunction(impl),
-			Receiver: recvStr,
-			Method:   impl.Name(),
+			Package:  "^" + regexp.QuoteMeta(lang.PackageNameFromFunction(impl)) + "$",
+			Receiver: "^" + regexp.QuoteMeta(recvStr) + "$",
+			Method:   "^" + regexp.QuoteMeta(impl.Name()) + "$",
 		})
 	}
 
